@@ -1,6 +1,6 @@
 """Concrete replayers for E1 counter-models: harness-name prefix -> function(record) -> {"violated": bool, "observed": ...}.
 Abstract map states are repaired to reachable ones (size := |dom|) before the call."""
-from __future__ import annotations
+
 
 
 def _found_index(rec):
